@@ -245,7 +245,12 @@ def scenarios(rep, tier, seed):
         if i % 2:
             Dm = np.round(r.random((n, n)) * (4 if i % 4 == 1 else 1000)) if i % 4 == 1 else r.random((n, n))
             np.fill_diagonal(Dm, 0.0)
-            out.append(({"mode": "pre", "metric": "euclidean", "Z": [[float(j)] for j in range(n)], "D": Dm.tolist(), "I": list(range(n)), "asym": True}, k, kp))
+            I_ = list(range(n))
+            if i % 6 == 1:
+                # a bootstrap resample addressed through the matrix: the same identifier at several positions (each position is a
+                # sample of its own; copies are at distance 0 from each other)
+                I_ = [rng4.randrange(n) for _ in range(n)]
+            out.append(({"mode": "pre", "metric": "euclidean", "Z": [[float(j)] for j in range(n)], "D": Dm.tolist(), "I": I_, "asym": True}, k, kp))
         else:
             Z = np.abs(r.normal(size=(n, 3))) + 0.25
             out.append(({"mode": "metric", "metric": ("pearson", "neyman")[(i // 2) % 2], "Z": Z.tolist(), "asym": True}, k, kp))
